@@ -172,7 +172,22 @@ theorem cowin_scope_is_number_of_cowinners (one : Int) (g : List HeadInfo) (c : 
       some (1 + ((resolveGroup one g c).filter (fun p => p.2 == Fate.cowin)).length) := by
   rw [group_scope_count one g c t w b hw hb hst hin hd, cowinRefs_eq_count _ h1]
 
-/-- non-vacuity of the hypotheses of the two theorems above: winner 2 (action 11), co-winner 1 (action 10). -/
+/-- The same for the WHOLE call (all loop groups, the action table threaded through them in processing order): if the
+    picked head `w` starts action `b` and no other input head holds `b`, then after `_resolve_action_conflicts` the
+    action `b` is present exactly with `flow_scope_count` = 1 + the references re-pointed by the co-winners of `w`'s
+    loop; the groups of other loops do not touch it. -/
+theorem cowin_action_shared_once_whole_call (one : Int) (hs : List HeadInfo) (cs : List Nat) (t : ActTbl) (w : HeadInfo) (b : Nat)
+    (hw : (w, Fate.picked) ∈ resolveFates one hs cs) (hb : w.act = some b) (hst : w.isStart = true)
+    (hin : (scopeOf b t).isSome = true) (hd : ∀ h ∈ hs, h ≠ w → h.act ≠ some b) :
+    scopeOf b (applyFates none (resolveFates one hs cs) t) =
+      some (1 + cowinRefs ((resolveFates one hs cs).filter (fun p => p.1.loop == w.loop))) := by
+  rw [resolveFates_eq] at hw ⊢
+  refine groups_scope_count one w b hb hst (groupsOf hs) cs t (groupsOf_keys_nodup hs) (groupsOf_loopsOk hs) hw hin ?_
+  intro q hq h hh
+  rw [groupsOf_mem hs q hq] at hh
+  exact hd h (mem_filter.1 hh).1
+
+/-- non-vacuity of the hypotheses of the theorems above: winner 2 (action 11), co-winner 1 (action 10). -/
 example : (⟨2, 2, 1, [3], 1, some 11, 1, true, false⟩, Fate.picked) ∈
     resolveGroup 5 [⟨1, 1, 1, [3], 1, some 10, 1, true, false⟩, ⟨2, 2, 1, [3], 1, some 11, 1, true, false⟩] 1 := by decide
 
